@@ -182,6 +182,51 @@ layout_harness!(k_layout_location, h_layout_location, md::MINIDUMP_LOCATION_DESC
     vassert!(v.rva == rd32(&b, 4, le), "MINIDUMP_LOCATION_DESCRIPTOR.Rva at 4");
 });
 
+// Crashpad extension structures (crashpad/minidump/minidump_extensions.h)
+layout_harness!(k_layout_cp_dict_entry, h_layout_cp_dict_entry, md::MINIDUMP_SIMPLE_STRING_DICTIONARY_ENTRY, 8, |v, b, le| {
+    vassert!(v.key == rd32(&b, 0, le), "MinidumpSimpleStringDictionaryEntry.key at 0");
+    vassert!(v.value == rd32(&b, 4, le), "MinidumpSimpleStringDictionaryEntry.value at 4");
+});
+
+layout_harness!(k_layout_cp_annotation, h_layout_cp_annotation, md::MINIDUMP_ANNOTATION, 12, |v, b, le| {
+    vassert!(v.name == rd32(&b, 0, le), "MinidumpAnnotation.name at 0");
+    vassert!(v.ty == rd16(&b, 4, le), "MinidumpAnnotation.type at 4");
+    vassert!(v._reserved == rd16(&b, 6, le), "MinidumpAnnotation.reserved at 6");
+    vassert!(v.value == rd32(&b, 8, le), "MinidumpAnnotation.value at 8");
+});
+
+layout_harness!(k_layout_cp_module_info, h_layout_cp_module_info, md::MINIDUMP_MODULE_CRASHPAD_INFO, 28, |v, b, le| {
+    vassert!(v.version == rd32(&b, 0, le), "MinidumpModuleCrashpadInfo.version at 0");
+    vassert!(v.list_annotations.data_size == rd32(&b, 4, le), "MinidumpModuleCrashpadInfo.list_annotations.DataSize at 4");
+    vassert!(v.list_annotations.rva == rd32(&b, 8, le), "MinidumpModuleCrashpadInfo.list_annotations.Rva at 8");
+    vassert!(v.simple_annotations.data_size == rd32(&b, 12, le), "MinidumpModuleCrashpadInfo.simple_annotations.DataSize at 12");
+    vassert!(v.simple_annotations.rva == rd32(&b, 16, le), "MinidumpModuleCrashpadInfo.simple_annotations.Rva at 16");
+    vassert!(v.annotation_objects.data_size == rd32(&b, 20, le), "MinidumpModuleCrashpadInfo.annotation_objects.DataSize at 20");
+    vassert!(v.annotation_objects.rva == rd32(&b, 24, le), "MinidumpModuleCrashpadInfo.annotation_objects.Rva at 24");
+});
+
+layout_harness!(k_layout_cp_module_link, h_layout_cp_module_link, md::MINIDUMP_MODULE_CRASHPAD_INFO_LINK, 12, |v, b, le| {
+    vassert!(v.minidump_module_list_index == rd32(&b, 0, le), "MinidumpModuleCrashpadInfoLink.minidump_module_list_index at 0");
+    vassert!(v.location.data_size == rd32(&b, 4, le), "MinidumpModuleCrashpadInfoLink.location.DataSize at 4");
+    vassert!(v.location.rva == rd32(&b, 8, le), "MinidumpModuleCrashpadInfoLink.location.Rva at 8");
+});
+
+layout_harness!(k_layout_cp_info, h_layout_cp_info, md::MINIDUMP_CRASHPAD_INFO, 52, |v, b, le| {
+    vassert!(v.version == rd32(&b, 0, le), "MinidumpCrashpadInfo.version at 0");
+    vassert!(v.report_id.data1 == rd32(&b, 4, le), "MinidumpCrashpadInfo.report_id.data1 at 4");
+    vassert!(v.report_id.data2 == rd16(&b, 8, le), "MinidumpCrashpadInfo.report_id.data2 at 8");
+    vassert!(v.report_id.data3 == rd16(&b, 10, le), "MinidumpCrashpadInfo.report_id.data3 at 10");
+    vassert!(v.report_id.data4[0] == b[12] && v.report_id.data4[7] == b[19], "MinidumpCrashpadInfo.report_id.data4 at 12..20");
+    vassert!(v.client_id.data1 == rd32(&b, 20, le), "MinidumpCrashpadInfo.client_id.data1 at 20");
+    vassert!(v.client_id.data2 == rd16(&b, 24, le), "MinidumpCrashpadInfo.client_id.data2 at 24");
+    vassert!(v.client_id.data3 == rd16(&b, 26, le), "MinidumpCrashpadInfo.client_id.data3 at 26");
+    vassert!(v.client_id.data4[0] == b[28] && v.client_id.data4[7] == b[35], "MinidumpCrashpadInfo.client_id.data4 at 28..36");
+    vassert!(v.simple_annotations.data_size == rd32(&b, 36, le), "MinidumpCrashpadInfo.simple_annotations.DataSize at 36");
+    vassert!(v.simple_annotations.rva == rd32(&b, 40, le), "MinidumpCrashpadInfo.simple_annotations.Rva at 40");
+    vassert!(v.module_list.data_size == rd32(&b, 44, le), "MinidumpCrashpadInfo.module_list.DataSize at 44");
+    vassert!(v.module_list.rva == rd32(&b, 48, le), "MinidumpCrashpadInfo.module_list.Rva at 48");
+});
+
 pub fn register(v: &mut Vec<(&'static str, fn(&mut TapeSrc))>) {
     v.push(("k_layout_header", h_layout_header::<TapeSrc>));
     v.push(("k_layout_directory", h_layout_directory::<TapeSrc>));
@@ -199,4 +244,9 @@ pub fn register(v: &mut Vec<(&'static str, fn(&mut TapeSrc))>) {
     v.push(("k_layout_breakpad_info", h_layout_breakpad_info::<TapeSrc>));
     v.push(("k_layout_misc_info", h_layout_misc_info::<TapeSrc>));
     v.push(("k_layout_location", h_layout_location::<TapeSrc>));
+    v.push(("k_layout_cp_dict_entry", h_layout_cp_dict_entry::<TapeSrc>));
+    v.push(("k_layout_cp_annotation", h_layout_cp_annotation::<TapeSrc>));
+    v.push(("k_layout_cp_module_info", h_layout_cp_module_info::<TapeSrc>));
+    v.push(("k_layout_cp_module_link", h_layout_cp_module_link::<TapeSrc>));
+    v.push(("k_layout_cp_info", h_layout_cp_info::<TapeSrc>));
 }
